@@ -17,6 +17,11 @@ class MethodObject:
         self.pyfunction = pyname.get_object()
         self.pymodule = self.pyfunction.get_module()
         self.resource = self.pymodule.get_resource()
+        if self.resource is None or self.resource.project != project:
+            raise exceptions.RefactoringError(
+                "Replace method with method object refactoring cannot be "
+                "performed on a function that is defined outside the project."
+            )
 
     def get_new_class(self, name):
         body = sourceutils.fix_indentation(
